@@ -11,7 +11,7 @@ from .c17 import gen_string, needs_care
 RULE = ("generated projects (flat or with 2 namespaces, 1-3 locales, 1-8 keys, nested subkeys) whose translation strings are "
         "built from a pool of awkward characters (quotes, backslash, slash, < > & ', all C0 controls, U+007F, C1 controls, "
         "U+00A0, U+200B, U+2028, U+2029, U+FEFF, astral and boundary scalars, combining marks), awkward fragments "
-        "(</script>, <!--, ]]>, \\u0041-looking text) and ordinary words; non-default locales / namespaces whose table is empty (file `{}`, all null, only variables); every written file is one evaluation; "
+        "(</script>, <!--, ]]>, \\u0041-looking text) and ordinary words; a quarter of the builds overwrite the output of an earlier build with longer texts; non-default locales / namespaces whose table is empty (file `{}`, all null, only variables); every written file is one evaluation; "
         "non-trivial = the file's table holds a string needing escaping or non-ASCII; distinct = distinct string tables")
 
 LOCALES = ["en", "fr", "pt-BR"]
@@ -57,7 +57,17 @@ def gen_project(rng, n, corpus=False):
                     obj[k] = gen_string(rng, markup=False)
             path = "locales/%s/%s.json" % (l, unit) if unit else "locales/%s.json" % l
             files[path] = json.dumps(obj, ensure_ascii=rng.chance(1, 3))
-    return {"cargo_toml": cargo, "files": files}
+    p = {"cargo_toml": cargo, "files": files}
+    if not corpus and rng.chance(1, 4):
+        # the output directory already holds the files of an earlier build whose texts were longer (same keys)
+        def longer(j):
+            if isinstance(j, str):
+                return j + " — and the rest of a much longer earlier wording \u00e9\u4e2d"
+            if isinstance(j, dict):
+                return {k: longer(v) for k, v in j.items()}
+            return j
+        p["previous_files"] = {path: json.dumps(longer(json.loads(text))) for path, text in files.items()}
+    return p
 
 
 def judge(m, f, strs):
